@@ -13,6 +13,9 @@ from framework.registry import target, job, PROPS, COMMON_ASSUME
 #    value is representable => the double computation is exact).
 #  * zero pivot for block values is demanded only for an all-zero pivot block (math::is_zero); a singular
 #    non-zero block is not a "zero pivot" in the sense of the property text.
+#  * object reuse: qr_reuse runs histories of 2..8 factorize / solve calls of varying shape, order and kind on ONE QR object
+#    (each step: the oracles above + bitwise equality with a fresh object); every skyline_lu object solves f, f2, f again
+#    (third result bitwise the first); detail::inverse is stateless, its scratch buffers are reused dirty -- catches seeded C16-6.
 #  * cuthill_mckee: only "is a permutation" (the property says nothing about bandwidth).
 #  * n = 0 is not fed to skyline_lu / cuthill_mckee (they write perm[0] unconditionally; the property
 #    quantifies over matrices, an empty system is not one the coarse level can produce).
